@@ -123,6 +123,19 @@ def repro_case(args):
     seed, i = args
     rng = random.Random(seed * 353868013 + i)
     sp = t3.gen_workflow(rng, maxlen=3, subdirs=False, multi_out=(i % 2 == 0), allow_params=True)
+    if i % 3 == 2:
+        # commands that reach a companion of an input through a path modifier (the paired-files convention:
+        # x.1.txt travels through the workflow, x.2.txt lies next to it): the script has to resolve these as well
+        sp = t3.Spec(maxtasks=rng.randint(1, 3))
+        L = rng.randint(1, 3)
+        for j in range(L):
+            sp.files["r%d.1.txt" % j] = "first of pair %d\n" % j
+            sp.files["r%d.2.txt" % j] = "second of pair %d\n" % j
+        s = sp.src("src", ["r%d.1.txt" % j for j in range(L)])
+        comp = rng.choice(["{i:a|%.1.txt}.2.txt", "{i:a|s/.1.txt/.2.txt/}"])
+        a = sp.proc(t3.Proc("pair", kind="cattok", ins=[("a", [(s, "out")])], outs=[("o", "{i:a}.paired")], pre="cat %s > /dev/null" % comp))
+        if rng.random() < 0.5:
+            sp.proc(t3.Proc("after", kind="cat", ins=[("a", [(a, "o")])], outs=[("o", "{i:a}.after")], pre="test -s {i:a|%.paired}"))
     model = t3.run_model(sp.text())
     if model["status"] != "done" or model["failed"]:
         return None
